@@ -13,9 +13,10 @@ import GMModel.Manager
                               `OSError`) on the system to which the topologies `a` have been added;
     * `Env.fromFiles c t`   — `Molecule.from_files(c, t)` succeeds (does not raise `OSError`).
 
-  `sortMolecules … (repaired := true)` is the code WITH the repair of defect D9
-  (`fixes/C20-D9.patch`: a species without `top_AA` is skipped in the third loop);
-  `repaired := false` is the code as found (`KeyError: 'top_AA'`).
+  `sortMolecules … (repaired := true)` is the code WITH the repairs of defect D9
+  (`fixes/C20-D9.patch`: a species without `top_AA` is skipped in the third loop) and of defect O-a
+  (`fixes/C20-Oa.patch`: a candidate topology file that is not a molecule topology is skipped);
+  `repaired := false` is the code as found (`KeyError: 'top_AA'`, resp. `IOError`).
 -/
 
 namespace Cli
@@ -171,16 +172,28 @@ def loop3 (env : Env) (repaired : Bool) : List String → Dict → Except PyErr 
     | .error e => .error e
     | .ok d' => loop3 env repaired cs d'
 
-/-- `[(i, MoleculeTop(i)) for i in topology_files]` — stops at the first file that does not parse -/
-def parseAll (env : Env) : List String → Except PyErr (List (String × String))
+/-- the list `topology_molecues` of `(file, MoleculeTop(file))`.
+    As found: `[(i, MoleculeTop(i)) for i in topology_files]` — the first file that does not parse
+    aborts discovery with its exception.
+    Repaired (`fixes/C20-Oa.patch`): a candidate whose `MoleculeTop(i)` raises `OSError` (it is not the
+    topology of a molecule: no `[ moleculetype ]`/`[ atoms ]`, empty file, force-field include) is
+    skipped with a `RuntimeWarning`; any other exception (a corrupt molecule topology:
+    `ValueError`, `IndexError`, `KeyError`) still propagates. -/
+def parseAll (env : Env) (repaired : Bool) : List String → Except PyErr (List (String × String))
   | [] => .ok []
   | f :: fs =>
     match env.parseTop f with
-    | .error e => .error e
+    | .error e =>
+      if repaired && e == .IOError then parseAll env repaired fs
+      else .error e
     | .ok n =>
-      match parseAll env fs with
+      match parseAll env repaired fs with
       | .error e => .error e
       | .ok r => .ok ((f, n) :: r)
+
+/-- number of "is not a molecule topology" warnings of the repaired code -/
+def skipped (env : Env) (T : List String) : Nat :=
+  (T.filter (fun f => match env.parseTop f with | .error .IOError => true | _ => false)).length
 
 def isKnownTop (known : List (String × String × String)) (f : String) : Bool :=
   known.any (fun k => k.1 == f || k.2.2 == f)
@@ -198,7 +211,7 @@ def sortMolecules (env : Env) (repaired : Bool) (tops coords : List String)
   let coords1 := coords.filter (fun f => !isKnownCoord known f)
   if !knownOk then .error .IOError
   else
-    match parseAll env tops1 with
+    match parseAll env repaired tops1 with
     | .error e => .error e
     | .ok tm =>
       let r1 := loop1 env (known.map (·.1)) tm [] []
